@@ -290,6 +290,7 @@ package meta
 //@   holds fsm.mu
 //@   at after proto.GetExtension#1: assume typeis(callresult0, "*metapb.UpdateRetentionPolicyCommand") && ival(callresult0) != 0
 //@   ensures rejected_changes_nothing: result != nil ==> fsm.data == old(fsm.data)
+//@   call Data.UpdateRetentionPolicy#1 assume_callee_requires
 //@   call Data.UpdateRetentionPolicy#1 requires runs_on_private_copy: fresh(other)
 
 //@ func (*storeFSM).applyCreateShardGroupCommand
@@ -551,10 +552,6 @@ package meta
 //@   modifies *except storeFSM.all store.all
 
 //@ func (*Data).SetPrivilege
-//@   assumed
-//@   modifies *except storeFSM.all store.all
-
-//@ func (*Data).UpdateRetentionPolicy
 //@   assumed
 //@   modifies *except storeFSM.all store.all
 
@@ -902,3 +899,19 @@ package meta
 //@   ghost copied bool = false
 //@   at after CopyShard#1: ghost copied = callresult0 == nil
 //@   call copyShard#1 requires advertised_only_after_a_successful_copy: copied
+
+// ---- C17: altering a policy's duration takes effect (0 = infinite: nothing of it expires any more) ----
+// ExpiredShardGroups decides expiry from rp.Duration alone; an ALTER that is acknowledged has to leave exactly
+// the requested duration in the policy, the value 0 included.
+//@ func (*Data).UpdateRetentionPolicy
+//@   props C17
+//@   nosafety
+//@   requires rpu != nil
+//@   modifies *except storeFSM.all store.all
+//@   ensures an_accepted_duration_becomes_the_policys_duration: result == nil && rpu.Duration != nil ==> rpi != nil && rpi.Duration == *rpu.Duration
+//@ func normalisedShardDuration
+//@   assumed
+//@   modifies nothing
+//@ func (DatabaseInfo).RetentionPolicy
+//@   assumed
+//@   modifies nothing
